@@ -1160,12 +1160,14 @@ impl<'p, W, R, T> CompilationScope<'p, W, R, T> {
 
         let mut exact_matches = vec![];
         let mut generic_matches = vec![];
+        let mut dynamic_matches = vec![];
         let mut dynamic_failures = vec![];
         // if the bindings are unknown, then we prefer generic solutions over exact solutions
         let is_unknown = arg_types
             .as_ref()
             .map_or(true, |t| t.iter().any(|t| t.is_unknown()));
         for (height, overload) in overloads {
+            let is_dynamic = matches!(&overload, OverloadWithForwardReq::Factory(..));
             let (spec, considered, is_generic) = match &overload {
                 OverloadWithForwardReq::Static {
                     spec,
@@ -1210,7 +1212,10 @@ impl<'p, W, R, T> CompilationScope<'p, W, R, T> {
                 if spec.short_circuit_overloads {
                     return prepare_return(self, considered);
                 }
-                if is_generic ^ is_unknown {
+                // dynamic functions are only considered when neither a plain nor a generic overload matches
+                if is_dynamic {
+                    &mut dynamic_matches
+                } else if is_generic ^ is_unknown {
                     &mut generic_matches
                 } else {
                     &mut exact_matches
@@ -1237,6 +1242,17 @@ impl<'p, W, R, T> CompilationScope<'p, W, R, T> {
                 name,
                 is_generic: !is_unknown,
                 items: generic_matches.len(),
+                param_types: arg_types.map(|at| at.to_vec()),
+            });
+        }
+        if dynamic_matches.len() == 1 {
+            return prepare_return(self, dynamic_matches.swap_remove(0));
+        }
+        if dynamic_matches.len() > 1 {
+            return Err(CompilationError::AmbiguousOverload {
+                name,
+                is_generic: true,
+                items: dynamic_matches.len(),
                 param_types: arg_types.map(|at| at.to_vec()),
             });
         }
